@@ -239,7 +239,10 @@ def gen_crop(ctx):
             if c < 0.7:
                 return float(np.nextafter(r.choice(ts), r.choice([-np.inf, np.inf])))
             return r.uniform(ts[0] - 2.0, ts[-1] + 2.0)
-        yield {"kind": "crop", "ts": ts, "s": bound(), "e": bound()}
+        s, e = bound(), bound()
+        if s is not None and e is not None and s > e and r.random() < 0.85:
+            s, e = e, s
+        yield {"kind": "crop", "ts": ts, "s": s, "e": e}
 
 
 def gen_split(ctx):
@@ -368,15 +371,16 @@ def impl_ds(case):
         return {"err": "E_TRAJ"}
     except Exception as e:  # e.g. IndexError of a broken id computation
         return {"raised": type(e).__name__ + ": " + str(e)[:80]}
-    ids = [int(v) for v in tr.positions_xyz[:, 0]]
-    ok = all(0 <= i < n for i in ids) and tr.num_poses == len(ids)
+    sel = tr.positions_xyz[:, 0].astype(int)
+    ids = sel.tolist()
+    ok = tr.num_poses == len(ids) and (len(ids) == 0 or (0 <= int(sel.min()) and int(sel.max()) < n))
     if ok:
-        sel = np.array(ids, dtype=int)
         ok = np.array_equal(tr.positions_xyz, xyz[sel])
         if rep != "se3":
             ok = ok and np.array_equal(tr.orientations_quat_wxyz, quat[sel])
         else:
-            ok = ok and len(tr.poses_se3) == len(ids) and all(np.array_equal(p, poses[i]) for p, i in zip(tr.poses_se3, ids))
+            ok = ok and len(tr.poses_se3) == len(ids) and all(
+                (p is poses[i]) or np.array_equal(p, poses[i]) for p, i in zip(tr.poses_se3, ids))
         if rep != "path":
             ok = ok and np.array_equal(tr.timestamps, stamps[sel])
     return {"ids": ids, "together": bool(ok)}
@@ -636,18 +640,18 @@ def judge_ds(ctx, case, impl, out):
     if judge_common(ctx, case, impl):
         ctx.record(case, False)
         return
+    got = impl.get("err") or impl["ids"]
     if out == "NOOP":
-        model = list(range(n))
+        same = got == list(range(n))
         ctx.count("branch", "downsample:noop")
     elif out == "E_TRAJ":
-        model = "E_TRAJ"
+        same = got == "E_TRAJ"
         ctx.count("branch", "downsample:refused")
     else:
-        model = parse_ids(out)
+        same = got != "E_TRAJ" and " ".join(map(str, got)) == out
         ctx.count("branch", "downsample:linspace")
-    got = impl.get("err") or impl["ids"]
-    if got != model:
-        ctx.mismatch(case, "downsample ids differ from Select.downsampleIds", got if got == "E_TRAJ" else got[:50], model if model == "E_TRAJ" else model[:50])
+    if not same:
+        ctx.mismatch(case, "downsample ids differ from Select.downsampleIds", got if got == "E_TRAJ" else got[:50], out[:300])
     # oracle: the property sentence on evo's output
     if got == "E_TRAJ":
         if N >= 1:
@@ -664,20 +668,23 @@ def judge_ds(ctx, case, impl, out):
             ctx.fail(case, "downsample-first", f"n={n} N={N}: first kept id {ids[0]}")
         elif N >= 2 and ids[-1] != n - 1:
             ctx.fail(case, "downsample-last", f"n={n} N={N}: last kept id {ids[-1]}")
-        elif not is_increasing(ids):
-            ctx.fail(case, "order-preserved", f"downsample n={n} N={N}: ids not strictly increasing")
-        elif 2 <= N < n:
-            a, b = n - 1, N - 1
-            lo, hi = a // b, -((-a) // b)
-            for k in range(len(ids)):
-                if abs(Fraction(ids[k]) - Fraction(k * a, b)) > 1:
+        else:
+            arr = np.array(ids, dtype=np.int64)
+            gaps = np.diff(arr)
+            if len(gaps) and int(gaps.min()) <= 0:
+                ctx.fail(case, "order-preserved", f"downsample n={n} N={N}: ids not strictly increasing")
+            elif 2 <= N < n:
+                a, b = n - 1, N - 1
+                lo, hi = a // b, -((-a) // b)
+                ka = np.arange(len(ids), dtype=np.int64) * a
+                dev = np.abs(arr * b - ka)                     # |id_k - k s| * (N-1), exact integers
+                if int(dev.max()) > b:
+                    k = int(dev.argmax())
                     ctx.fail(case, "downsample-even", f"n={n} N={N}: id[{k}]={ids[k]} is more than 1 from k(n-1)/(N-1)")
-                    break
-                if k and not (lo <= ids[k] - ids[k - 1] <= hi):
-                    ctx.fail(case, "downsample-even", f"n={n} N={N}: gap {ids[k] - ids[k - 1]} at {k} not in [{lo},{hi}]")
-                    break
-            if model != "E_TRAJ" and any(model[k] != k * a // b for k in range(len(model))):
-                ctx.count("branch", "downsample:rounding-below-exact-floor")
+                elif int(gaps.min()) < lo or int(gaps.max()) > hi:
+                    ctx.fail(case, "downsample-even", f"n={n} N={N}: a gap is outside [{lo},{hi}] (gaps {int(gaps.min())}..{int(gaps.max())})")
+                if same and bool(np.any(arr != ka // b)):
+                    ctx.count("branch", "downsample:rounding-below-exact-floor")
     ctx.count("dist", "ds:" + case["rep"])
     ctx.record(case, 2 <= N < n)
 
